@@ -48,7 +48,9 @@ def cases(draw):
         elif kd == "load_image":
             models.append({"kind": kd, "time_scale": draw(ts), "multiplier": draw(st.sampled_from([1.0, 0.5, 3.0])),
                            "position": [draw(st.integers(0, rows - 1)), draw(st.integers(0, cols - 1))],
-                           "img_seed": draw(st.integers(0, 1000)), "img_shape": [draw(st.integers(1, 9)), draw(st.integers(1, 9))]})
+                           "img_seed": draw(st.integers(0, 1000)), "img_shape": [draw(st.integers(1, 9)), draw(st.integers(1, 9))],
+                           # the non-default option: the file holds digital numbers that are converted to photons with the detector's gain
+                           "bit_resolution": draw(st.sampled_from([None, None, 8, 16]))})
         elif kd == "stripes":
             if rows % 2 or cols % 2:
                 models.append({"kind": "uniform", "level": draw(lvl), "time_scale": draw(ts)})
@@ -101,7 +103,8 @@ def _pipeline(case, tmp):
             path = tmp / f"img{i}.npy"
             np.save(path, rng.uniform(0.0, 100.0, size=tuple(m["img_shape"])))
             photon.append({"name": f"img{i}", "func": P + "photon_collection.load_image", "enabled": True,
-                           "arguments": {"image_file": str(path), "position": m["position"], "multiplier": m["multiplier"], "time_scale": m["time_scale"]}})
+                           "arguments": dict({"image_file": str(path), "position": m["position"], "multiplier": m["multiplier"], "time_scale": m["time_scale"]},
+                                             **({"convert_to_photons": True, "bit_resolution": m["bit_resolution"]} if m.get("bit_resolution") else {}))})
         elif kd == "stripes":
             photon.append({"name": f"stripes{i}", "func": P + "photon_collection.stripe_pattern", "enabled": True,
                            "arguments": {"period": m["period"], "level": m["level"], "angle": 0, "startwith": m["startwith"], "time_scale": m["time_scale"]}})
